@@ -2508,8 +2508,9 @@ def sleep_relative_to_fresh_clock(ctx, rule="R-ORDER"):
         ctx.ob(rule, k, "sleep/relative-to-fresh-clock", ok, "select() returns the time to the next io timer corrected by a clock sample taken after the timeout handler (and the local queue) ran" if ok else
                "select() returns the time to the next io timer relative to the clock sample taken BEFORE the timeout handler%s ran: the event loop then sleeps that stale time, "
                "an io timeout that came due meanwhile fires late by the run time" % (" and the local queue" if late_runs else ""), g.where(sorted(sch)[0]))
-    if n < 2:
-        ctx.missing(rule, TL, "sleep/relative-to-fresh-clock", "expected the timer thread and a selector, found %d instance(s)" % n)
+    io_to = ctx.prog.fn("may::io::sys::timeout_handler") is not None       # without the io_timeout feature the selectors have no timer list
+    if n < (2 if io_to else 1):
+        ctx.missing(rule, TL, "sleep/relative-to-fresh-clock", "expected the timer thread%s, found %d instance(s)" % (" and a selector" if io_to else "", n))
 
 
 # ------------------------------------------------------------------------------------------------
@@ -2601,3 +2602,81 @@ def worker_run_budget_rules(ctx, rule="R-EXIT"):
     ctx.ob(rule, RQ, "worker/run-budget-exit-posts-wakeup", bool(exits) and not nowake,
            "leaving with work still queued posts the worker's own wakeup event, so the next select returns at once" if exits and not nowake else
            "run_queued_tasks can leave on its budget without posting the worker's wakeup event: the selector then sleeps although the local queue is not empty", f.where())
+
+
+# ------------------------------------------------------------------------------------------------
+# F34: the wait is registered in the coroutine's cancel data BEFORE the coroutine is published
+
+def cancel_registered_before_publish(ctx, only=None, rule="R-ORDER"):
+    """every subscriber that registers its wait with the coroutine's Cancel (set_co / set_io) does so while it still owns the coroutine, i.e.
+    before the call that publishes it (wait_co.store(co) / EventData::store_co(co) / the add_timer that hands it to the timer thread). Once
+    published the coroutine can be resumed elsewhere, finish (the Cancel lives in its handle: use after free) or block on something else and
+    register there - the late registration then overwrites the newer one with a stale slot and a later cancel() wakes nobody (finding F34)."""
+    an = ctx.an
+    REG = Call(r"may::cancel::CancelImpl::(set_co|set_io)", transitive=False)
+    n = 0
+    for k, g in sorted(ctx.prog.fns.items()):
+        if not k.startswith(("may::", "<may::")) or "{closure" in k: continue
+        if only and not re.search(only, k): continue
+        regs = an.sites(g, REG, "must")
+        if not regs: continue
+        pubs = an.sites(g, Call(r"may::sync::atomic_option::AtomicOption::store|may::io::sys::EventData::store_co", transitive=False), "must")
+        if not pubs: pubs = an.sites(g, Call(r"may::scheduler::Scheduler::add_timer", transitive=False), "must")
+        if not pubs: continue
+        n += 1
+        ctx.fns_touched.add(k)
+        after = an.reach(g, [q for p0 in pubs for q in an.after(g, p0)])
+        late = sorted(r0 for r0 in regs if r0 in after)
+        ctx.ob(rule, k, "cancel/registered-before-publish", not late, "%s registers the wait with the coroutine's Cancel before it publishes the coroutine" % k if not late else
+               "%s publishes the coroutine first and registers it with the coroutine's Cancel afterwards: a subscriber stalled in between touches the Cancel of a coroutine that already runs "
+               "elsewhere (freed with its handle if it finished; overwriting its newer registration if it blocked again, so that cancel() wakes nobody)" % k, g.where(late[0]) if late else g.where(sorted(regs)[0]))
+    return n
+
+
+def recheck_takes_own_slot(ctx, f):
+    """the subscriber's cancel re-check delivers the cancel itself: behind `is_canceled()` it takes the coroutine out of the slot it published
+    (instead of going through cancel.cancel(), which needs the registration to be in place). With that form the registration may - and
+    per finding F34 should - precede the publication."""
+    C = "may::cancel::CancelImpl"
+    blk_true = ctx.edges(f, call_true(re.escape(C) + "::is_canceled"))
+    takes = ctx.an.sites(f, Call(AO + "take", transitive=False), "must")
+    if not blk_true or not takes: return False
+    r = ctx.an.reach(f, [Point(tb, 0) for _, tb, _ in blk_true])
+    return any(t in r for t in takes) and not ctx.an.sites(f, Call(re.escape(C) + "::cancel", transitive=False), "must")
+
+
+# ------------------------------------------------------------------------------------------------
+# F35: a plain `thread::park()` is only ever a hint - it is always re-armed by a loop on a condition
+
+def thread_park_in_loop(ctx, rule="R-EXIT"):
+    """std::thread::park() returns at once when an unpark token is left over from anybody (may's own primitives leave them) and may wake
+    spuriously; every un-timed thread::park() of may therefore sits on a cycle of its function - a loop that re-reads what it waits for.
+    A single park followed by `the event has happened` runs ahead of the event (finding F35: socket io from a plain thread)."""
+    an = ctx.an
+    n = 0
+    for k, g in sorted(ctx.prog.fns.items()):
+        if not k.startswith(("may::", "<may::")): continue
+        for pt in sorted(an.sites(g, Call(r"std::thread::park", transitive=False), "must")):
+            n += 1
+            ctx.fns_touched.add(k)
+            in_loop = pt in an.reach(g, an.after(g, pt))
+            # the cycle must contain a decision that reads shared state (an atomic access / a queue pop / a take): not `loop { park() }`
+            cond = False
+            if in_loop:
+                cyc = [q for q in an.reach(g, an.after(g, pt), blocked={pt}) if pt in an.reach(g, [q])]
+                for q in cyc:
+                    if g.is_term(q) and g.node(q)["t"] == "call" and re.search(r"atomic::Atomic\w*::(load|swap|compare_exchange\w*|fetch_\w+)|::pop$|::take$|::try_recv$|::schedule_timer$|::is_empty$", callee_name(g.node(q)) or ""):
+                        cond = True; break
+            if not in_loop and "{closure" not in k:
+                # the loop may be one level up: every caller calls this function on a cycle of its own and the function itself re-reads the
+                # condition after the park (spsc: InnerQueue::recv parks once and tries again, Receiver::recv loops while it reports Empty)
+                cs = [(h, q) for h, q in ctx.prog.callers().get(k, ()) if not h.is_cleanup(q.bb)]
+                reread = any(g.is_term(q) and g.node(q)["t"] == "call" and re.search(r"::try_recv$|::pop$|atomic::Atomic\\w*::(load|swap)", callee_name(g.node(q)) or "") for q in an.reach(g, an.after(g, pt)))
+                if cs and reread and all(q in an.reach(h, an.after(h, q)) for h, q in cs):
+                    in_loop = cond = True
+            ctx.ob(rule, k.split("::{closure")[0], "thread-park/in-a-loop-on-a-condition", in_loop and cond,
+                   "thread::park() in %s is re-armed by a loop that re-reads what it waits for" % k if in_loop and cond else
+                   "%s parks the thread once and then goes on as if the awaited event had happened: a left-over unpark token (may's own spsc / ThreadPark leave them) or a spurious "
+                   "wake-up makes it run ahead of the event" % k, g.where(pt))
+    if n < 3:
+        ctx.missing(rule, "may", "thread-park/in-a-loop-on-a-condition", "expected >= 3 thread::park() sites (timer thread, spsc thread receiver, thread io), found %d" % n)
